@@ -6,21 +6,29 @@ package main
 // Type.HasMethod and the custom-filter natives GetType / GetInterface. Its splitting statements are read fail-closed --
 //
 //	pos := strings.LastIndexByte(fqn, '.')
+//	[ if currentPkg != nil && pos != -1 { ... fqn[:pos] ... fqn[pos+1:] ... } ]   the dependency block (optional)
+//	[ statements that mention neither pos nor a slice of fqn ]                      the cache lookup
 //	if pos == -1 { return nil, <error> }
 //	pkgPath := fqn[:pos]
 //	objectName := fqn[pos+1:]
 //
-// -- and translated into Gallina over RG.Types.FqnSplit (go_last_index_byte) and RG.Types.GoStrings (go_slice). Any other
+// (inside the dependency block the halves are the same two slice expressions, written out or bound to a local of the same
+// name as the later variable; the guard makes them the halves gen_split_fqn computes) -- and translated into Gallina over RG.Types.FqnSplit (go_last_index_byte) and RG.Types.GoStrings (go_slice). Any other
 // shape (a helper function, another strings function, a further assignment to one of the four variables, an assignment to
 // the parameter before the cut) makes the generation fail, which the check reports as a broken obligation.
 // Also emitted, to be pinned by the proof script: every call that consumes pkgPath / objectName (which package is looked up /
 // imported, which name is looked up in it), and the bodies of the two helpers those calls go to (lookupType, findDependency).
+// And the keys of the caches FindType reads and writes (every index expression on a field of the engine state / the importer, with
+// the key expression's single-assignment locals substituted), together with the fields of every struct type used as such a key:
+// an answer remembered under anything less than the whole name (+ the asking package, for the per-importer cache) is served for
+// another name.
 
 import (
 	"fmt"
 	"go/ast"
 	"go/parser"
 	"go/token"
+	"io/fs"
 	"strings"
 )
 
@@ -120,14 +128,88 @@ func c20Fqn(repo string, args []string) (string, error) {
 		return "", fmt.Errorf("FindType: no top-level statement `pos := strings.LastIndexByte(%s, '.')` (the package / object boundary of a fully-qualified name is its last dot): %s",
 			fqn, c20oneLine(exprString(fset, fd.Body)))
 	}
-	if at+3 >= len(fd.Body.List) {
-		return "", fmt.Errorf("FindType: the cut is not followed by its three statements")
-	}
-	// ---- if pos == -1 { return nil, err }
-	ifs, ok := fd.Body.List[at+1].(*ast.IfStmt)
 	bad := func(what string, n ast.Node) error {
 		return fmt.Errorf("FindType: %s: %s", what, c20oneLine(exprString(fset, n)))
 	}
+	// the two slice expressions that are the halves
+	isPathSlice := func(se *ast.SliceExpr) bool {
+		return !se.Slice3 && se.Max == nil && isIdent(se.X, fqn) && se.Low == nil && se.High != nil && isIdent(se.High, pos)
+	}
+	isNameSlice := func(se *ast.SliceExpr) bool {
+		if se.Slice3 || se.Max != nil || !isIdent(se.X, fqn) || se.High != nil {
+			return false
+		}
+		if b2, ok := se.Low.(*ast.BinaryExpr); ok && b2.Op == token.ADD && isIdent(b2.X, pos) {
+			if n, ok := c20IntLit(b2.Y); ok && n == 1 {
+				return true
+			}
+		}
+		return false
+	}
+	isNotFoundTest := func(st ast.Stmt) bool {
+		ifs, ok := st.(*ast.IfStmt)
+		if !ok || ifs.Init != nil {
+			return false
+		}
+		be, ok := ifs.Cond.(*ast.BinaryExpr)
+		if !ok || be.Op != token.EQL || !isIdent(be.X, pos) {
+			return false
+		}
+		n, ok := c20IntLit(be.Y)
+		return ok && n == -1
+	}
+	// ---- between the cut and `if pos == -1`: at most one dependency block; everything else leaves pos and fqn's slices alone
+	orig := at
+	var depBlock *ast.IfStmt
+	ck := -1
+	for i := at + 1; i < len(fd.Body.List); i++ {
+		st := fd.Body.List[i]
+		if isNotFoundTest(st) {
+			ck = i
+			break
+		}
+		mentionsPos, slices := false, false
+		ast.Inspect(st, func(n ast.Node) bool {
+			if id, ok := n.(*ast.Ident); ok && id.Name == pos {
+				mentionsPos = true
+			}
+			if se, ok := n.(*ast.SliceExpr); ok && isIdent(se.X, fqn) {
+				slices = true
+			}
+			return true
+		})
+		if !mentionsPos && !slices {
+			continue
+		}
+		ifs, ok := st.(*ast.IfStmt)
+		if !ok || depBlock != nil || ifs.Init != nil || ifs.Else != nil {
+			return "", bad("a statement between the cut and `if "+pos+" == -1` uses "+pos+" and is not the one block guarded by `<pkg> != nil && "+pos+" != -1`", st)
+		}
+		// the guard: <ident> != nil && pos != -1
+		cond, ok := ifs.Cond.(*ast.BinaryExpr)
+		okGuard := false
+		if ok && cond.Op == token.LAND {
+			l, ok1 := cond.X.(*ast.BinaryExpr)
+			r, ok2 := cond.Y.(*ast.BinaryExpr)
+			if ok1 && ok2 && l.Op == token.NEQ && isIdent(l.Y, "nil") && r.Op == token.NEQ && isIdent(r.X, pos) {
+				if _, isId := l.X.(*ast.Ident); isId {
+					if n, ok := c20IntLit(r.Y); ok && n == -1 {
+						okGuard = true
+					}
+				}
+			}
+		}
+		if !okGuard {
+			return "", bad("the guard of the dependency block is not `<pkg> != nil && "+pos+" != -1`", ifs.Cond)
+		}
+		depBlock = ifs
+	}
+	if ck < 0 || ck+2 >= len(fd.Body.List) {
+		return "", fmt.Errorf("FindType: the cut is not followed by `if %s == -1 { return nil, ... }` and the two slices", pos)
+	}
+	at = ck - 1 // from here on at+1 .. at+3 are the not-found test and the two slices
+	// ---- if pos == -1 { return nil, err }
+	ifs, ok := fd.Body.List[at+1].(*ast.IfStmt)
 	if !ok || ifs.Init != nil || ifs.Else != nil || len(ifs.Body.List) != 1 {
 		return "", bad("the statement after the cut is not `if "+pos+" == -1 { return nil, ... }`", fd.Body.List[at+1])
 	}
@@ -178,16 +260,42 @@ func c20Fqn(repo string, args []string) (string, error) {
 	// ---- nothing else writes the four variables; the parameter is not written before the cut
 	guarded := map[string]bool{fqn: true, pos: true, pkgPath: true, objectName: true}
 	var werr error
+	halfDefine := func(n *ast.AssignStmt) bool { // inside the dependency block: `pkgPath := fqn[:pos]` / `objectName := fqn[pos+1:]`
+		if n.Tok != token.DEFINE || len(n.Lhs) != 1 || len(n.Rhs) != 1 {
+			return false
+		}
+		id, ok := n.Lhs[0].(*ast.Ident)
+		se, ok2 := n.Rhs[0].(*ast.SliceExpr)
+		return ok && ok2 && ((id.Name == pkgPath && isPathSlice(se)) || (id.Name == objectName && isNameSlice(se)))
+	}
 	for i, st := range fd.Body.List {
-		if i >= at && i <= at+3 {
+		if i == orig || (i > at && i <= at+3) {
 			continue
 		}
+		inDep := depBlock != nil && st == ast.Stmt(depBlock)
 		ast.Inspect(st, func(n ast.Node) bool {
 			switch n := n.(type) {
 			case *ast.AssignStmt:
+				if inDep && halfDefine(n) {
+					return true
+				}
 				for _, l := range n.Lhs {
 					if id, ok := l.(*ast.Ident); ok && guarded[id.Name] {
 						werr = fmt.Errorf("FindType: %s is assigned outside the cut: %s", id.Name, c20oneLine(exprString(fset, n)))
+					}
+				}
+				if inDep {
+					// a half bound to any other local would flow on untracked
+					for _, r := range n.Rhs {
+						ast.Inspect(r, func(m ast.Node) bool {
+							if _, ok := m.(*ast.CallExpr); ok {
+								return false // a half handed to a call is recorded among the uses
+							}
+							if se, ok := m.(*ast.SliceExpr); ok && isIdent(se.X, fqn) {
+								werr = fmt.Errorf("FindType: a slice of %s is bound to a variable other than %s / %s: %s", fqn, pkgPath, objectName, c20oneLine(exprString(fset, n)))
+							}
+							return true
+						})
 					}
 				}
 			case *ast.IncDecStmt:
@@ -211,10 +319,44 @@ func c20Fqn(repo string, args []string) (string, error) {
 	if werr != nil {
 		return "", werr
 	}
-	// ---- who consumes the two halves
+	// ---- inside the dependency block pos occurs only in the guard and in the two half slices, fqn is sliced only that way
+	if depBlock != nil {
+		var walk func(n ast.Node) bool
+		walk = func(n ast.Node) bool {
+			switch n := n.(type) {
+			case *ast.SliceExpr:
+				if isIdent(n.X, fqn) {
+					if !isPathSlice(n) && !isNameSlice(n) {
+						werr = bad("a slice of "+fqn+" that is neither "+fqn+"[:"+pos+"] nor "+fqn+"["+pos+"+1:]", n)
+					}
+					return false
+				}
+			case *ast.IndexExpr:
+				if isIdent(n.X, fqn) {
+					werr = bad(fqn+" is indexed", n)
+				}
+			case *ast.Ident:
+				if n.Name == pos {
+					werr = fmt.Errorf("FindType: %s is used outside the two slices inside the dependency block", pos)
+				}
+			}
+			return true
+		}
+		ast.Inspect(depBlock.Body, walk)
+		if werr != nil {
+			return "", werr
+		}
+	}
+	// ---- who consumes the two halves (the dependency block first, then the statements after the cut)
 	type use struct{ callee, args string }
 	var uses []use
-	for _, st := range fd.Body.List[at+4:] {
+	pathText, nameText := fqn+"[:"+pos+"]", fqn+"["+pos+"+1:]"
+	canon := func(e ast.Expr) string {
+		t := exprString(fset, e)
+		t = strings.ReplaceAll(t, pathText, pkgPath)
+		return strings.ReplaceAll(t, nameText, objectName)
+	}
+	scanUses := func(st ast.Node) {
 		ast.Inspect(st, func(n ast.Node) bool {
 			call, ok := n.(*ast.CallExpr)
 			if !ok {
@@ -223,9 +365,12 @@ func c20Fqn(repo string, args []string) (string, error) {
 			mentions := false
 			var as []string
 			for _, a := range call.Args {
-				as = append(as, exprString(fset, a))
+				as = append(as, canon(a))
 				ast.Inspect(a, func(m ast.Node) bool {
 					if id, ok := m.(*ast.Ident); ok && (id.Name == pkgPath || id.Name == objectName) {
+						mentions = true
+					}
+					if se, ok := m.(*ast.SliceExpr); ok && isIdent(se.X, fqn) {
 						mentions = true
 					}
 					return true
@@ -236,6 +381,109 @@ func c20Fqn(repo string, args []string) (string, error) {
 			}
 			return true
 		})
+	}
+	if depBlock != nil {
+		if exprString(fset, &ast.SliceExpr{X: ast.NewIdent(fqn), High: ast.NewIdent(pos)}) != pathText {
+			return "", fmt.Errorf("c20fqn: printer renders the path slice differently")
+		}
+		scanUses(depBlock.Body)
+	}
+	for _, st := range fd.Body.List[at+4:] {
+		scanUses(st)
+	}
+	// ---- the keys of the caches: every index expression on a field (state.typeByFQN[..], importer.depTypes[..]); a key that is a
+	// local defined once is replaced by its definition
+	localDef := map[string]ast.Expr{}
+	localCnt := map[string]int{}
+	ast.Inspect(fd.Body, func(n ast.Node) bool {
+		if as, ok := n.(*ast.AssignStmt); ok {
+			for k, l := range as.Lhs {
+				if id, ok := l.(*ast.Ident); ok {
+					localCnt[id.Name]++
+					if as.Tok == token.DEFINE && len(as.Lhs) == len(as.Rhs) {
+						localDef[id.Name] = as.Rhs[k]
+					}
+				}
+			}
+		}
+		return true
+	})
+	type ckey struct{ m, k string }
+	var ckeys []ckey
+	seenKey := map[ckey]bool{}
+	keyTypes := []string{}
+	ast.Inspect(fd.Body, func(n ast.Node) bool {
+		ix, ok := n.(*ast.IndexExpr)
+		if !ok {
+			return true
+		}
+		if _, ok := ix.X.(*ast.SelectorExpr); !ok {
+			return true
+		}
+		k := ix.Index
+		if id, ok := k.(*ast.Ident); ok && localCnt[id.Name] == 1 && localDef[id.Name] != nil {
+			k = localDef[id.Name]
+		}
+		if cl, ok := k.(*ast.CompositeLit); ok {
+			if id, ok := cl.Type.(*ast.Ident); ok {
+				dup := false
+				for _, t := range keyTypes {
+					dup = dup || t == id.Name
+				}
+				if !dup {
+					keyTypes = append(keyTypes, id.Name)
+				}
+			}
+		}
+		c := ckey{exprString(fset, ix.X), canon(k)}
+		if !seenKey[c] {
+			seenKey[c] = true
+			ckeys = append(ckeys, c)
+		}
+		return true
+	})
+	// the struct types used as keys: their fields, from the package's sources
+	var keyStructs []ckey
+	if len(keyTypes) > 0 {
+		pkgs, err := parser.ParseDir(fset, repo+"/ruleguard", func(fi fs.FileInfo) bool { return !strings.HasSuffix(fi.Name(), "_test.go") }, 0)
+		if err != nil {
+			return "", err
+		}
+		for _, kt := range keyTypes {
+			found := ""
+			for _, pk := range pkgs {
+				for _, pf := range pk.Files {
+					for _, d := range pf.Decls {
+						gd, ok := d.(*ast.GenDecl)
+						if !ok {
+							continue
+						}
+						for _, sp := range gd.Specs {
+							if ts, ok := sp.(*ast.TypeSpec); ok && ts.Name.Name == kt {
+								st, ok := ts.Type.(*ast.StructType)
+								if !ok || found != "" {
+									return "", fmt.Errorf("c20fqn: key type %s is not declared once as a struct", kt)
+								}
+								var fl []string
+								for _, f := range st.Fields.List {
+									for _, nm := range f.Names {
+										fl = append(fl, nm.Name+" "+exprString(fset, f.Type))
+									}
+									if len(f.Names) == 0 {
+										fl = append(fl, exprString(fset, f.Type))
+									}
+								}
+								found = strings.Join(fl, "; ")
+							}
+						}
+					}
+				}
+			}
+			if found == "" {
+				return "", fmt.Errorf("c20fqn: key type %s not found in ruleguard/", kt)
+			}
+			keyStructs = append(keyStructs, ckey{kt, found})
+		}
 	}
 	// ---- the helpers
 	helperBody := func(file, name string) (string, error) {
@@ -266,7 +514,7 @@ func c20Fqn(repo string, args []string) (string, error) {
 	var sb strings.Builder
 	sb.WriteString("(* GENERATED by go2coq c20fqn from ruleguard/engine.go (engineState.FindType) and ruleguard/utils.go -- do not edit. *)\n")
 	sb.WriteString("From Coq Require Import List ZArith Bool String Ascii.\nFrom RG.Types Require Import GoStrings FqnSplit.\nImport ListNotations.\nLocal Open Scope string_scope.\n\n")
-	fmt.Fprintf(&sb, "(* %s\n   %s\n   %s\n   %s *)\n", c20comment(exprString(fset, fd.Body.List[at])), c20comment(exprString(fset, fd.Body.List[at+1])),
+	fmt.Fprintf(&sb, "(* %s\n   %s\n   %s\n   %s *)\n", c20comment(exprString(fset, fd.Body.List[orig])), c20comment(exprString(fset, fd.Body.List[at+1])),
 		c20comment(exprString(fset, fd.Body.List[at+2])), c20comment(exprString(fset, fd.Body.List[at+3])))
 	fmt.Fprintf(&sb, "Definition gen_split_fqn (%s : string) : option (string * string) :=\n", fqn)
 	fmt.Fprintf(&sb, "  let %s := go_last_index_byte %s \".\"%%char in\n", pos, fqn)
@@ -282,6 +530,29 @@ func c20Fqn(repo string, args []string) (string, error) {
 			sep = ""
 		}
 		fmt.Fprintf(&sb, "  (%s, %s)%s\n", c20q(u.callee), c20q(u.args), sep)
+	}
+	sb.WriteString("].\n\n")
+	sb.WriteString("(* the guard of the block that asks the dependencies of the current package before the cut's own not-found test *)\n")
+	if depBlock != nil {
+		fmt.Fprintf(&sb, "Definition gen_fqn_dep_guard : string := %s.\n\n", c20q(c20oneLine(exprString(fset, depBlock.Cond))))
+	} else {
+		sb.WriteString("Definition gen_fqn_dep_guard : string := \"\".\n\n")
+	}
+	sb.WriteString("(* the caches FindType reads / writes: (map, key expression), locals substituted; and the fields of the struct types used as keys *)\nDefinition gen_fqn_cache_keys : list (string * string) := [\n")
+	for i, c := range ckeys {
+		sep := ";"
+		if i == len(ckeys)-1 {
+			sep = ""
+		}
+		fmt.Fprintf(&sb, "  (%s, %s)%s\n", c20q(c.m), c20q(c.k), sep)
+	}
+	sb.WriteString("].\nDefinition gen_fqn_key_structs : list (string * string) := [\n")
+	for i, c := range keyStructs {
+		sep := ";"
+		if i == len(keyStructs)-1 {
+			sep = ""
+		}
+		fmt.Fprintf(&sb, "  (%s, %s)%s\n", c20q(c.m), c20q(c.k), sep)
 	}
 	sb.WriteString("].\n\n")
 	fmt.Fprintf(&sb, "(* the helpers the halves are handed to: signature :: statements *)\nDefinition gen_lookup_type : string := %s.\nDefinition gen_find_dependency : string := %s.\n", c20q(lt), c20q(fdep))
